@@ -249,7 +249,25 @@ def check_enum(sc, ctx):
         ctx.nontrivial_case({"args": pargs, "schedules": n, "bound": bound, "complete": sim.enumerate_schedules.complete})
 
 
+def check_onecpu(sc, ctx):
+    """Several cores requested while the process may use one CPU only (taskset, cpuset, a one-CPU container): the
+    run must still produce what the one-core run produces."""
+    args, files = base_args(sc)
+    serial = cli.run_subprocess(args, files, timeout=90)
+    serial.log = [(40, serial.stderr[-400:])] if serial.exit != 0 else []
+    pargs = ["-j", str(sc["workers"]), "--buffer-size", str(sc["buffer"])] + args
+    par = cli.run_subprocess(pargs, files, timeout=90, one_cpu=True)
+    if par.timed_out:
+        raise Violation(f"run restricted to one CPU did not terminate within 90 s ({pargs})", tag="hang")
+    par.log = [(40, par.stderr[-400:])] if par.exit != 0 else []
+    compare_runs(sc, serial, par, "real processes restricted to one CPU", pargs)
+    ctx.label(f"workers:{sc['workers']}")
+    if serial.exit == 0 and any(len(v) > 0 for k, v in serial.files.items() if k != "rep.json"):
+        ctx.nontrivial_case({"args": pargs})
+
+
 SUBS = {
+    "onecpu": Sub(strategy=lambda tier: mc_case("real"), check=check_onecpu),
     "sim": Sub(strategy=lambda tier: mc_case("sim"), check=check_sim),
     "real": Sub(strategy=lambda tier: mc_case("real"), check=check_real),
     "enum": Sub(strategy=lambda tier: mc_case("enum", tier), check=check_enum),
@@ -260,7 +278,9 @@ def plan(tier):
     if tier == "quick":
         return [{"sub": "sim", "kind": "hyp", "examples": 220} for _ in range(10)] + \
                [{"sub": "real", "kind": "hyp", "examples": 60} for _ in range(4)] + \
-               [{"sub": "enum", "kind": "hyp", "examples": 4} for _ in range(2)]
+               [{"sub": "enum", "kind": "hyp", "examples": 4} for _ in range(2)] + \
+               [{"sub": "onecpu", "kind": "hyp", "examples": 12}]
     return [{"sub": "sim", "kind": "hyp", "examples": 6000} for _ in range(10)] + \
            [{"sub": "real", "kind": "hyp", "examples": 1500} for _ in range(3)] + \
-           [{"sub": "enum", "kind": "hyp", "examples": 10} for _ in range(6)]
+           [{"sub": "enum", "kind": "hyp", "examples": 10} for _ in range(6)] + \
+           [{"sub": "onecpu", "kind": "hyp", "examples": 150}]
